@@ -144,5 +144,28 @@ fn vp_native_text_helpers_decode_whole_body() {
             assert_eq!(t3, String::from_utf8_lossy(&body), "text_utf8() of {:?}", body);
         }
     } } }
+    // long bodies: multi-byte sequences (2, 3 and 4 bytes) straddle every internal read boundary at every alignment, and every
+    // 8 KiB stretch also holds a malformed byte; the result must be the whole-body lossy decoding
+    let unit = "日本語é😀".as_bytes();
+    for k in 0..unit.len() + 1 { for framing in ["length", "close", "chunked"] {
+        let mut body = vec![b'a'; k];
+        for i in 0..2500 { body.extend_from_slice(unit); if i % 200 == 0 { body.push(0xFF); } }
+        let whole = String::from_utf8_lossy(&body).into_owned();
+        let mk = || {
+            let mut w = match framing { "length" => format!("HTTP/1.1 200 OK\r\nContent-Type: text/plain; charset=utf-8\r\nContent-Length: {}\r\n\r\n", body.len()),
+                                        "close" => "HTTP/1.1 200 OK\r\nContent-Type: text/plain; charset=utf-8\r\n\r\n".to_string(),
+                                        _ => "HTTP/1.1 200 OK\r\nContent-Type: text/plain; charset=utf-8\r\nTransfer-Encoding: chunked\r\n\r\n".to_string() }.into_bytes();
+            if framing == "chunked" { for c in body.chunks(4093) { w.extend_from_slice(format!("{:x}\r\n", c.len()).as_bytes()); w.extend_from_slice(c); w.extend_from_slice(b"\r\n"); } w.extend_from_slice(b"0\r\n\r\n"); }
+            else { w.extend_from_slice(&body); }
+            w };
+        let req = PreparedRequest::new(http::Method::GET, "http://a.test/");
+        let t1 = parse_response(BaseStream::mock(mk()), &req, req.url()).unwrap().text().unwrap();
+        let t2 = parse_response(BaseStream::mock(mk()), &req, req.url()).unwrap().text_with(charsets::UTF_8).unwrap();
+        let t3 = parse_response(BaseStream::mock(mk()), &req, req.url()).unwrap().text_utf8().unwrap();
+        cases += 1;
+        assert!(t1 == whole, "text() of a {}-byte body (shift {}, {} framing) differs from decoding the whole body", body.len(), k, framing);
+        assert!(t2 == whole, "text_with() of a {}-byte body (shift {}, {} framing) differs from decoding the whole body", body.len(), k, framing);
+        assert!(t3 == whole, "text_utf8() of a {}-byte body (shift {}, {} framing) differs from decoding the whole body", body.len(), k, framing);
+    } }
     println!("VP-NATIVE text_helpers_decode_whole_body cases={}", cases);
 }
